@@ -827,3 +827,8 @@ Example pos_updates_nonvacuous :
   let cls := [new_client sw_scr; set_encodings false sw_scr [1; 2] (new_client sw_scr)] in
   exists cl', nth_error (snd (ptr_event sw_scr cls 0 1 1)) 1 = Some cl' /\ posupd cl' = true /\ moved cl' = true.
 Proof. cbv zeta. eexists. split; [vm_compute; reflexivity|]. split; reflexivity. Qed.
+
+(* the tree (commit 2b32386, v_switch = true): every SetEncodings keeps the invariant *)
+Theorem inv_set_encodings_tree : forall fixed fmt s encs cl,
+  wf_fb (sfb s) -> Inv fixed fmt s cl -> Inv fixed fmt s (set_encodings true s encs cl).
+Proof. intros. apply inv_set_encodings; auto. Qed.
